@@ -1,5 +1,5 @@
-tokens: str num true false null
-V -> str | num | true | false | null | '{' Ms '}' | '[' Es ']'
+tokens: str num TRUE FALSE NULL
+V -> str | num | TRUE | FALSE | NULL | '{' Ms '}' | '[' Es ']'
 Ms -> | Mlist
 Mlist -> M | Mlist ',' M
 M -> str ':' V
